@@ -8,7 +8,12 @@ def run(ctx):
     cfg = dict(nt=1, nx=2, sync=False, rollback=False, faults=True, crash=False)
     queries = [('reach', 28, ['reach:tx1-apply-failed']), ('reach', 28, ['reach:fault']),
                ('stuck', d, ['bad:stranded']), ('bad', d, ['bad:c02-send-out-of-order'])]
-    proto.run(ctx, 'C11', [('1x2f', cfg, queries, ['c11'])],
+    # a refusal AND a process stop in one history: both transactions committed (waypoint), then every continuation of 16 steps in
+    # which the device may refuse and the process may stop between the writes that record the refusal; nothing is left stranded
+    cfgc = dict(nt=1, nx=2, sync=False, rollback=False, faults=True, crash=True, budget=1)
+    way = {'pred': 'reach:w-CC', 'depth': 20, 'seed': {'pred': 'reach:w-C-', 'depth': 20}}
+    qc = [('stuck', 16 if quick else 22, ['bad:stranded'], way)]
+    proto.run(ctx, 'C11', [('1x2f', cfg, queries, ['c11']), ('1x2fc', cfgc, qc, [])],
               'apply step of the real proposal reconciler against a device answering every gRPC code (symbolic per step): contracts '
               '"unreachable/slow/superseded leaves the change pending", "a refusal fails the change with the device\'s error class, '
               'advances the applied index, leaves applied values and device alone" + BMC "after refusals nothing is stranded"',
